@@ -59,7 +59,7 @@ var plans = map[string]Plan{
 		Level: "exploration",
 		Rule: "cases are wire-value trees: (a) four finite spaces of small shapes walked completely, (b) rapid-generated trees to depth 6 with boundary scalars, raw double bit patterns and occasional >1MiB binaries, each under a drawn read segmentation. " +
 			"Oracle: bytes == independent reference encoder for both writers; both readers invert exactly and consume exactly. " +
-			"Non-trivial: the tree has a struct or container with at least one child. Distinct: SHA-256 of (reference encoding, root kind).",
+			"Non-trivial: the tree has a struct or container with at least one child. Distinct: SHA-256 of (reference encoding, root kind). Also: the value the random-access decoder returns is itself encoded twice with an unrelated message decoded in between (the encoder does not own the value), must give the spec bytes both times and must still read back equal afterwards (keys reencode/*).",
 		Assumptions: []string{
 			"internal/refcodec is a correct statement of the Thrift binary protocol (written from the spec, self-inverse checked on every case)",
 			"internal/bridge converts W <-> wire.Value and drives the stream API as its interface documents",
@@ -73,7 +73,7 @@ var plans = map[string]Plan{
 		Level: "exploration",
 		Rule: "cases are (bytes, requested wire type, read segmentation): uniform random bytes; grammar-aware mutations (length/count edits incl. -1, -2^31, 2^31-1, true+-1; type-byte swaps; bool bytes; field ids; truncation; bit flips; insert/delete) of reference encodings of random trees; every prefix of valid encodings; deep-nesting probes in child processes. " +
 			"Oracle: no panic, no hang (20s watchdog, re-tried), decode+force success => re-encoding == consumed prefix (both readers) and Skip consumes exactly the same (seekable and non-seekable). " +
-			"Non-trivial: the input decodes to a tree with a non-empty container, or a length/count/type byte was edited. Distinct: SHA-256 of (input, type).",
+			"Non-trivial: the input decodes to a tree with a non-empty container, or a length/count/type byte was edited. Distinct: SHA-256 of (input, type). Also: wire.EvaluateValue must accept exactly the inputs whose lazily decoded containers can all be read element by element (key ra/evaluate-disagrees); unit big-binaries: valid structs of 1-3 binaries around the 1 MiB threshold of the streaming reader (symbolic cases, input rebuilt on replay).",
 		Assumptions: []string{
 			"internal/bridge's schema-less stream walker is a legitimate caller of stream.Reader (it rejects unknown type codes itself)",
 			"a 20 s watchdog (x3 retries) on <=64 KiB inputs stands in for 'never hangs'",
@@ -83,6 +83,7 @@ var plans = map[string]Plan{
 			{Name: "random-bytes", Pkg: "./checks/c03", Run: "^TestRandomBytes$", Rapid: true, Shards: [2]int{4, 8}, Checks: [2]int{10000, 80000}},
 			{Name: "mutated", Pkg: "./checks/c03", Run: "^TestMutated$", Rapid: true, Shards: [2]int{8, 16}, Checks: [2]int{10000, 60000}},
 			{Name: "truncate-all", Pkg: "./checks/c03", Run: "^TestTruncateEverywhere$", Rapid: true, Shards: [2]int{2, 8}, Checks: [2]int{500, 3000}},
+			{Name: "big-binaries", Pkg: "./checks/c03", Run: "^TestBigBinaries$", Rapid: true, Shards: [2]int{2, 4}, Checks: [2]int{30, 200}},
 			{Name: "deep-nesting", Pkg: "./checks/c03", Run: "^TestDeepNesting$", Shards: [2]int{1, 1}, Weight: 4},
 			{Name: "fuzz", Pkg: "./checks/c03", Fuzz: "FuzzReadValue", Shards: [2]int{0, 1}, FuzzTime: [2]time.Duration{0, 120 * time.Second}, Weight: 16},
 		},
@@ -128,7 +129,7 @@ var plans = map[string]Plan{
 		Level: "exploration",
 		Rule: "cases are (multi-file program, resolution order): programs from the constructive generator (forward/backward/cross-file references, typedef chains incl. chains through a struct that refers back, diamond and cyclic includes, constants/defaults of every type, service inheritance; definitions shuffled in each file) x (a) a drawn order for every map the compiler iterates (includes, types, constants, services of every module) through compile.CompileWithLinkOrder plus 3 plain Compile repetitions, (b) ALL permutations of each small module's types (<=6), constants, services, includes (<=4), (c) the same for deliberately invalidated programs. " +
 			"Oracle: canonical dump of the compiled Module graph == dump computed from the model's by-construction bindings (typedef target and root, field ids/types/requiredness, evaluated constants and defaults, enum values, service parents, shared include identity), and identical dumps / identical success-or-failure across all orders. " +
-			"Non-trivial: the program has a typedef chain, a cross-file typedef, a typedef-struct cycle or a diamond include (or is invalidated). Distinct: SHA-256 of (program JSON, orders).",
+			"Non-trivial: the program has a typedef chain, a cross-file typedef, a typedef-struct cycle or a diamond include (or is invalidated). Distinct: SHA-256 of (program JSON, orders). Programs also contain reference cycles across two files that include each other (typedef in one, target struct in the other, default on the back reference), mutually recursive struct pairs with a {} default closing the cycle, back-reference defaults given through a constant; unit known-shapes re-observes the two hand-kept K4 programs under every type link order.",
 		Assumptions: []string{
 			"compile.CompileWithLinkOrder (verif hook) only chooses one of the orders Go's map iteration could produce: it pre-links in the chosen order and then runs the unmodified link pass; its agreement with plain Compile is itself checked (natural repetitions)",
 			"internal/idlmodel reference semantics (scoping by construction, constant casting rules as documented in compile/constant_value.go)",
@@ -177,7 +178,7 @@ var plans = map[string]Plan{
 		Level: "exploration",
 		Rule: "cases are file sets fed to compile.Compile and, when that succeeds, gen.Generate, in child processes: arbitrary bytes; token-level mutations (delete / duplicate / swap / keyword<->identifier / hostile literals / token copied from elsewhere / raw bytes) of rendered generated programs; valid generated programs; structurally built programs around 18 kinds of reference cycle or dangling reference (typedef, typedef through containers, constant, constant<->struct default, struct default naming its own type, default chains, required-struct cycles, union self-reference, service extends, include loops, self include, deep typedef chains ...) of length 1..4, with a complete grid over (kind, length). " +
 			"Oracle: every input ends in value or error: a recovered panic, a child killed by a fatal error (stack limit 64 MiB) or a batch exceeding 4 minutes (re-run alone twice) is a violation. " +
-			"Non-trivial: structural inputs (cycle or dangling reference), or inputs that got past the parser. Distinct: SHA-256 of the file set.",
+			"Non-trivial: structural inputs (cycle or dangling reference), or inputs that got past the parser. Distinct: SHA-256 of the file set. Structural shapes live in shape.thrift (not main.thrift, which the generator refuses), cycles run through every container position (element, set member, map key, map value, nested), and one shape is a generated program of up to four files that all define one shared type name. Ceilings are CPU time of the child since its last progress report (150 s, then 300 s alone, twice); wall time alone only yields 'inconclusive'.",
 		Assumptions: []string{
 			"debug.SetMaxStack(64 MiB) in the child: inputs are a few KiB, legitimate recursion is shallow",
 			"a 4 minute ceiling per batch of 250 inputs (normal: seconds) stands in for 'terminates'",
@@ -246,7 +247,7 @@ var plans = map[string]Plan{
 		Rule: "cases are (generated program, named type, value): programs from the constructive generator (1-3 files; all base types; nested containers incl. unhashable keys and slice-annotated sets; typedef chains; enums; structs / unions / exceptions incl. recursive ones; defaults and constants of every literal form; services with inheritance; go.* annotations) generated with drawn option sets (zap on/off, strict enum text, single output file, no-recurse, no-embed-idl) by the working tree's compile+gen into a scratch module; for every struct, union, exception, typedef, enum, args and result type, schema-directed values (absent / present optionals, empty / non-empty containers, boundary numbers, raw double bits, unknown enum values), re-ordered on the wire for the deserializers and delivered under a drawn read segmentation. " +
 			"Oracle: bytes of x.Encode(stream) and of Encode(x.ToWire()) decode under the independent reference codec to the value with declared defaults filled; x.Decode(stream) and x.FromWire(Decode()) of a reference encoding read back (by reflection) as that value. " +
 			"Schema-violating Go values (required reference field nil, union with 0 / 2 members, nil struct element in a list / slice-set / map value / unhashable map key; planted at any depth of a valid value) must be refused by Encode and by Encode(ToWire()); every constant and Default_ constructor of the lab (complete walk) must equal the model's evaluation of the IDL literal cast to its type; Get/IsSet accessors on drawn values and nil receivers return value / declared default / zero. " +
-			"Non-trivial: the type has >=2 fields or is a container typedef, and the value contains a container, nested struct or filled default (invalid-value, static and default-bearing accessor cases always count). Distinct: SHA-256 of (program, type, canonical value[, violation]).",
+			"Non-trivial: the type has >=2 fields or is a container typedef, and the value contains a container, nested struct or filled default (invalid-value, static and default-bearing accessor cases always count). Distinct: SHA-256 of (program, type, canonical value[, violation]). Every fourth lab program is compiled in non-strict mode (fields without requiredness, negative field ids in structs); empty required lists are handed to the serializers as nil slices half of the time; a documented generated symbol that is missing is a violation (missing/<kind>).",
 		Assumptions: []string{
 			"harness/drv converts wire trees <-> Go values by reflection following the documented Go type mapping and idlmodel.GoName; a mismatch surfaces as a driver error (key driver/*), never as silence",
 			"idlmodel reference semantics for defaults (Fill / Eval)",
@@ -263,7 +264,7 @@ var plans = map[string]Plan{
 		Level: "exploration",
 		Rule: "cases are (multi-file program, CLI option set): (safe pool) programs whose identifiers cannot clash after Go name mapping, over every type constructor, typedef chains, defaults and constants of every literal form (incl. defaults on typedef'd types, cross-file enum defaults, struct / union / container literals), recursive types, services with inheritance across files, go.name / go.label / go.tag / go.type / go.redact / go.nolog annotations (also on parameters and exceptions); (hostile pool) the same with identifiers and file names drawn from Go keywords, initialisms, SCREAMING_CASE, generated method / helper names, names colliding after case mapping, std / runtime package names, cyclic includes, repeated exception types; x option sets {no-zap, enum-text-marshal-strict, no-recurse, output-file, no-embed-idl}. Programs are generated by the working tree's compile+gen and built with go build (plus go vet in the thorough tier) in a scratch module. " +
 			"Oracle: safe => accepted and the emitted Go builds; hostile => rejected with an error (and nothing written) or the emitted Go builds. " +
-			"Non-trivial: the program instantiates a shape class absent from the repository fixtures (listed in the class histogram) or comes from the hostile pool. Distinct: SHA-256 of (program JSON, options).",
+			"Non-trivial: the program instantiates a shape class absent from the repository fixtures (listed in the class histogram) or comes from the hostile pool. Distinct: SHA-256 of (program JSON, options). Programs also contain: one shared type name defined by every file (struct / enum / typedef / exception, also named like a native type: String, I32, ...) with a struct per file naming every visible one in containers and a function throwing all same-named exceptions; files named like local variables of the generated code or like packages it imports (v, err, fmt, init, strings, ...); constants in same-type families and of named types with one-word ALL-CAPS / lower / Title names.",
 		Assumptions: []string{
 			"the safe pool makes Go-name clashes impossible by construction (distinct stems, no reserved words, no generated-method names); a function throwing one exception type twice counts as not representable in Go (hostile pool)",
 			"go vet diagnostics are recorded, only build errors count",
@@ -333,7 +334,7 @@ var plans = map[string]Plan{
 		Level: "exploration",
 		Rule: "cases are (Thrift sources, option set, schedule): programs from the constructive generator (files renamed to contested names in two thirds of them) and a raw-text collision generator (3-8 includes named like packages the generated code imports - fmt, fmt2, bytes, wire, stream, zapcore, ptr, strconv, errors ... -, Go keywords, same base name in different directories, repeated definition names across files, helper-name collisions, constants of map / set / struct type, services in several files); a complete grid of 10 hand-written programs x 13 option sets; x schedules: R fresh processes of the real CLI (own map hash seed each), in-process repetitions, distinct resolution orders through compile.CompileWithLinkOrder. " +
 			"Oracle (metamorphic): identical success/failure, identical set of output paths, identical bytes of every file, identical GenerateServiceRequest after canonical renumbering of module / service ids, across all runs of the same sources and options. " +
-			"Non-trivial: >=3 includes or an alias / helper collision. Distinct: SHA-256 of the case JSON.",
+			"Non-trivial: >=3 includes or an alias / helper collision. Distinct: SHA-256 of the case JSON. The in-process plugin answers with nothing, three files, or one file under two spellings of its path with different contents (refused on every run).",
 		Assumptions: []string{
 			"error texts are never compared; the plugin request is captured by an in-process ServiceGenerator passed through gen.Options.Plugin",
 			"map-order dependence is sampled (each process / repetition draws new hash seeds); the link-order hook forces distinct resolution orders deterministically",
